@@ -32,7 +32,7 @@ def levels_runs(tr):
 def dpplace_runs(tr):
     runs, tot = [], {"distinct": 0, "generated": 0}
     insts = [(1, 0.2), (2, 0.2), (2, 0.5)] if tr == "quick" else [(1, 0.2), (2, 0.2), (1, 0.5), (2, 0.5), (3, 0.5), (2, 1)]
-    maxkw, maxn = (3, 9) if tr == "quick" else (4, 11)
+    maxkw, maxn = (3, 9) if tr == "quick" else (3, 11)
     for L, ratio in insts:
         stab = [max(1, math.ceil(l * ratio)) for l in range(0, 13)]
         wrapper = "---- MODULE MCDP ----\nEXTENDS DPPlace\nStabDef == %s\n====\n" % se.tla_literal(stab)
